@@ -11,9 +11,10 @@ EXTENDS Naturals, Integers, Sequences, FiniteSets, TLC, Json, IOUtils
 
 Obs == JsonDeserialize(IOEnv.TRACE_FILE)
 
-IsOk(o) == SubSeq(o, 1, 3) = "ok:"
-IsErr(o) == SubSeq(o, 1, 4) = "err:"
-IsPy(o) == SubSeq(o, 1, 3) = "py:"
+IsOk(o) == o.k = "ok"
+IsErr(o) == o.k = "err"
+IsPy(o) == o.k = "py"
+UndefinedError == [k |-> "err", v |-> "UndefinedError"]
 
 (* ---- C12: "<=" means "< or ==" (and ">=" likewise) whatever a cell's value is ------------- *)
 OrderingConsistent(r) ==
@@ -48,9 +49,9 @@ LimitSweep(r) ==
 
 (* ---- C16: strict undefined types only refine the default ------------------------------------ *)
 UndefinedRefines(r) ==
-  /\ ~IsErr(r.default) \/ r.default # "err:UndefinedError"        \* the default type never raises for a missing name
+  /\ r.default # UndefinedError                                    \* the default type never raises for a missing name
   /\ \A k \in DOMAIN r.strict : IsOk(r.strict[k]) => r.strict[k] = r.default
-  /\ \A k \in DOMAIN r.strict : IsErr(r.strict[k]) => r.strict[k] = "err:UndefinedError"
+  /\ \A k \in DOMAIN r.strict : IsErr(r.strict[k]) => r.strict[k] = UndefinedError
 
 (* ---- C04: str() round trip ----------------------------------------------------------------- *)
 RoundTrip(r) ==
